@@ -384,3 +384,12 @@ def layout(W, order):
 # Hypothesis tends to produce minimal values for the draws that come late in an example: the FIRST entry of a choice list should
 # therefore be an interesting one, not the trivial one (measured: with "C" first, non-C layouts almost only met maxswap=0)
 ORDERS = ["F", "C", "T", "S", "C"]
+
+
+# power-of-two scale factors: multiplying dyadic weights by them stays exact in binary floating point, squares and reciprocals stay
+# finite, and anything that compares against an absolute tolerance (1e-8, machine epsilon) or forms W*W naively is exposed
+POW2_SCALES = [1.0, 2.0 ** -60, 2.0 ** 40, 2.0 ** -400, 2.0 ** 400, 2.0 ** -30]
+# storage types of 0/1 adjacency matrices met in practice
+BINARY_DTYPES = ["float64", "uint8", "int64", "bool", "int8", "float32", "int32", "uint16"]
+# integer lengths of very different magnitude (all sums exact in float64): near-ties at large magnitude next to short links
+MIXED_INT = [1.0, 300000.0, 2.0, 300002.0, 100000.0, 100001.0, 3.0, 1000000.0, 1000001.0]
